@@ -28,6 +28,8 @@ def case_capacity(cid, kind, rng, cap):
     # thread's local free list make the count inexact there)
     if kind != "zbdd":
         ops = ops[:1] + ["FILL", "GC", "SNAP"] + ops[1:] + ["FILL", "GC", "SNAP"]
+    if rng.random() < 0.3:
+        h += " nested=1"      # inside a session of another manager: no thread-local store state for this one
     return (h, ops)
 
 
